@@ -203,6 +203,7 @@ func c09(c *eng.Ctx) {
 	c.Rule("R2", "sign-safe conversions: every signed/float→unsigned conversion in pkg/flowcontrols has an operand proven ≥ 0 (branch-refined bounds; validated configuration; the reserve invariant; unsigned sources; limits read from sanitized server items)", 15)
 	c.Rule("R2s", "server quotas are sanitized at entry: in remoteWrapper.Sync the answered item passes through a sanitizer whose result replaces it before any other use; the sanitizer clamps every numeric member into [0, the schema's configured global limit]; functions taking limit items are called only with sanitized items", 7)
 	c.Rule("R2i", "reserve invariant: every function storing maxInflightWrapper.reserve / tokenBucketWrapper.reserve leaves it ≥ its never-reassigned package floor", 2)
+	c.Rule("R4", "a Resize of a global wrapper records the requested size (and the reserve derived from it) on every path, also while the server is unavailable, so that recovery restores the current configuration", 5)
 	c.Rule("R3", "global-count replies are clamped: every limiter size or acquired limit derived from an AcquireResult is ≥ 0 and ≤ the wrapper's max, itself stored only from sanitized/unsigned sizes; on the error branch the size is at least the local limit", 5)
 
 	x := &c09Ctx{c: c, sanitized: map[*ssa.Function]bool{}, globalsOK: map[*ssa.Global]bool{}}
@@ -211,6 +212,34 @@ func c09(c *eng.Ctx) {
 	x.sanitizer()
 	x.conversions()
 	x.setLimit()
+	x.resizeRecords()
+}
+
+// resizeRecords (R4): the global wrappers remember the size they were last asked for and
+// restore it when the server comes back; a Resize must record the requested size on every
+// path, also while the server is unavailable.
+func (x *c09Ctx) resizeRecords() {
+	c := x.c
+	type rec struct {
+		typ    string
+		fields []string
+	}
+	for _, r := range []rec{{"maxInflightWrapper", []string{"max", "reserve"}}, {"tokenBucketWrapper", []string{"qps", "burst", "reserve"}}} {
+		fn := c.MustMethod(pkgFCRemote, r.typ, "Resize")
+		if fn == nil {
+			continue
+		}
+		tn := pkgFCRemote + "." + r.typ
+		for _, f := range r.fields {
+			isStore := func(i ssa.Instruction) bool {
+				st, ok := i.(*ssa.Store)
+				return ok && eng.FieldAddrOf(st.Addr, tn, f)
+			}
+			miss := eng.ReachFromEntry(fn, eng.PathQuery{Target: eng.IsExit, Avoid: isStore})
+			c.Check("R4", fn, r.typ+".Resize records "+f+" on every path", fn.Pos(), miss == nil,
+				"a limit change that arrives while the limiter server is unavailable must still be remembered: the size restored on recovery (and the clamps derived from it) would otherwise be the one from before the change — e.g. a global limit lowered during an outage is forgotten")
+		}
+	}
 }
 
 // ---- R1 -------------------------------------------------------------------------------
@@ -500,7 +529,7 @@ func (x *c09Ctx) sanitizer() {
 					feeds = true
 				}
 			}
-			if !feeds && !eng.AlwaysBefore(sync, n, isSan) && !c09OnlyCompared(n) {
+			if !feeds && !eng.AlwaysBefore(sync, n, isSan) {
 				ok, detail = false, "the raw item is read before it is sanitized"
 			}
 		case *ssa.MakeClosure:
